@@ -182,20 +182,26 @@ def build_scene(spec):
     s = trimesh.Scene()
     ref = Placed()
     geoms = {}
+    buf = np.eye(4)
     for i, node in enumerate(spec["nodes"]):
         name = f"n{i}"
         parent = "world" if node["parent"] is None or node["parent"] >= i else f"n{node['parent']}"
         M = np.array(node["M"], dtype=np.float64)
+        # the caller's pose buffer: one array re-used for every node, overwritten after each hand-over
+        buf[:] = M
         g = node["geom"]
         if g is not None:
             if g not in geoms:
                 geoms[g] = make_geometry(g)
-                s.add_geometry(geoms[g], node_name=name, geom_name=g, parent_node_name=None if parent == "world" else parent, transform=M)
+                s.add_geometry(geoms[g], node_name=name, geom_name=g, parent_node_name=None if parent == "world" else parent, transform=buf)
             else:
-                s.graph.update(frame_to=name, frame_from=parent, matrix=M, geometry=g)
+                s.graph.update(frame_to=name, frame_from=parent, matrix=buf, geometry=g)
             ref.geom[name] = g
         else:
-            s.graph.update(frame_to=name, frame_from=parent, matrix=M)
+            s.graph.update(frame_to=name, frame_from=parent, matrix=buf)
+        if not buf.flags.writeable:
+            raise Violation("C10|build|callers_matrix_made_readonly", name)
+        buf[:] = np.nan
         ref.parent[name] = (parent, M)
     return s, ref, geoms
 
@@ -290,7 +296,15 @@ def check_quantities(s, ref, geoms, where, sigp):
         ok, msg = same_tris(s.to_mesh().triangles, T, scale)
         check(ok, sigp + "|to_mesh|triangles", f"{where}: {msg}")
     dp = np.vstack([verts3(x) for x in d]) if d else np.zeros((0, 3))
-    check(len(dp) == len(P) and np.abs(np.sort(dp, axis=0) - np.sort(P, axis=0)).max() <= tol, sigp + "|dump|vertices", where)
+    # dump() documents its in-plane test for planar paths with atol=1e-8 against identity: a node transform that leaves
+    # the plane by less than that is applied as a 2D transform, so such an instance is placed to 1e-8 x its size only
+    tol_dump = tol
+    for n, g, Tn in ref.instances():
+        if isinstance(geoms[g], trimesh.path.Path2D):
+            off = max(np.abs(Tn[2, :2]).max(), np.abs(Tn[:2, 2]).max(), abs(Tn[2, 2] - 1.0), abs(Tn[2, 3]))
+            if 0 < off <= 1e-8:
+                tol_dump = tol + 4e-8 * scale
+    check(len(dp) == len(P) and np.abs(np.sort(dp, axis=0) - np.sort(P, axis=0)).max() <= tol_dump, sigp + "|dump|vertices", where)
 
 
 @body("C10.scene")
@@ -459,6 +473,31 @@ def b_scene(case, ctx):
         # operations that return a new scene must leave the source untouched
         check(scene_state(s) == before, f"C10|{k}|modified_source", "the source scene changed")
         check_quantities(s, ref, geoms, f"source after {k}", f"C10|{k}|source_quantities")
+        # ... also in what it answers to the NEXT structural query: every subscene again, then a moved copy
+        for node in sorted(ref.parent):
+            if not ref.connected(node):
+                continue
+            Tn = ref.world(node)
+            inv = np.linalg.inv(Tn)
+            succ = []
+            for n, g, Tw in ref.instances():
+                x = n
+                while x != "world" and x != node:
+                    x = ref.parent[x][0]
+                if x == node and isinstance(geoms[g], trimesh.Trimesh):
+                    succ.append(hom(inv @ Tw, np.asarray(geoms[g].triangles).reshape((-1, 3))).reshape((-1, 3, 3)))
+            want = np.vstack(succ) if succ else np.zeros((0, 3, 3))
+            c2 = s.subscene(node)
+            got = c2.triangles if any(isinstance(g, trimesh.Trimesh) for g in c2.geometry.values()) and len(c2.graph.nodes_geometry) else np.zeros((0, 3, 3))
+            ok, msg = same_tris(got, want, scale * max(1.0, np.abs(inv).max()))
+            check(ok, f"C10|{k}|then_subscene|triangles", f"subscene({node}) asked after {k}: {msg}")
+        if len(T0):
+            moved = s.copy()
+            Mv = np.eye(4)
+            Mv[:3, 3] = [3.0, -2.0, 5.0]
+            moved.apply_transform(Mv)
+            ok, msg = same_tris(moved.triangles, T0 + Mv[:3, 3], scale + 5.0)
+            check(ok, f"C10|{k}|then_copy_apply_transform|triangles", f"a copy taken after {k} and moved by a translation: {msg}")
 
 
 # ------------------------------------------------------------------------------- strategies
